@@ -181,7 +181,8 @@ func (runInfo *runInfoStruct) invokeMapExpr(expr *ast.MapExpr) {
 			if runInfo.err != nil {
 				return
 			}
-			key = runInfo.rv
+			// the key is the value read now, also when the value expression changes where it came from
+			key = heldValue(runInfo.rv)
 			if !isHashable(key) {
 				runInfo.err = newStringError(expr, "type "+hashableTypeString(key)+" cannot be used as map key")
 				runInfo.rv = nilValue
@@ -227,7 +228,7 @@ func (runInfo *runInfoStruct) invokeMapExpr(expr *ast.MapExpr) {
 		if runInfo.err != nil {
 			return
 		}
-		key, runInfo.err = convertReflectValueToType(runInfo.rv, keyType)
+		key, runInfo.err = convertReflectValueToType(heldValue(runInfo.rv), keyType)
 		if runInfo.err != nil {
 			runInfo.err = newStringError(expr, "cannot use type "+key.Type().String()+" as type "+keyType.String()+" as map key")
 			runInfo.rv = nilValue
